@@ -132,6 +132,22 @@ def nontrivial(c, o):
     return any(not r.get("skip") and not r["acc"] and not (r["was"] and req_class(r).startswith("auth")) for r in o.get("rs") or [])
 
 
+def count_evaluations(cases, outs):
+    """one evaluation = one HTTP/3 request sent and compared (plus the two probes per connection)."""
+    return sum(len([r for r in o.get("rs") or [] if not r.get("skip")]) + (2 if o.get("stream") is not None else 0) for o in outs)
+
+
+def nontrivial_keys(c, o):
+    """distinct (configuration, request) pairs that were NOT accepted auth requests and were compared with the oracle."""
+    import json
+    ks = set()
+    for r in o.get("rs") or []:
+        if r.get("skip") or r["acc"] or (r["was"] and req_class(r).startswith("auth")):
+            continue
+        ks.add(json.dumps([c["cfg"]["masq"], r["was"], r["m"], r["h"], r["p"], r.get("auth"), r.get("ccrx")]))
+    return ks
+
+
 def fingerprint(c, o):
     import re
     why = o.get("why") or ""
